@@ -21,7 +21,12 @@ def gen_cases(seed, tier):
     n = 250 if tier == "quick" else 3000
     cases = []
     for i in range(n):
-        spec = G.gen_network(rng, max_order=rng.choice([2, 3, 4, 4, 6]), nrx=(1, 4), nsp=(1, 5))
+        spec = G.gen_network(rng, max_order=rng.choice([2, 3, 4, 4, 6]), nrx=(1, 4), nsp=(1, 5), allow_delay=rng.random() < 0.4)
+        # delayed parts enter the safe interface's requirement table: include "taken now, handed back after the delay" and
+        # "taken after the delay" shapes (immediate and delayed coefficients of opposite / equal sign) -- seeded change S2_C01
+        for rx in spec["reactions"]:
+            if "delay" in rx and rx["reactants"] and rng.random() < 0.5: rx["delay"]["products"] = rx["delay"]["products"] + [rx["reactants"][0]]
+            if "delay" in rx and rx["products"] and rng.random() < 0.25: rx["delay"]["reactants"] = rx["delay"]["reactants"] + [rx["products"][0]]
         pts = []
         for _ in range(4):
             x = {s: rng.choice([0.0, 1.0, 2.0, 3.0, 5.0, 7.0, G.dyadic(rng, 0, 9, 8), 0.5]) for s in spec["species"]}
